@@ -770,8 +770,10 @@ func (g *c18Gen) config(promURL string) (cfg string, hasProm bool) {
 		g.opt(&b, "  ", "concurrency", pick(g.r, []string{"0", "8", "16", "-1"}), 0.3)
 		g.opt(&b, "  ", "rateLimit", pick(g.r, []string{"0", "100", "1000", "-1"}), 0.3) // small limits only make pint slow
 		g.opt(&b, "  ", "required", g.boolean(), 0.3)
-		g.opt(&b, "  ", "failover", "["+fmt.Sprintf("%q", promURL)+"]", 0.2)
-		g.opt(&b, "  ", "headers", `{ "X-Auth" = "k" }`, 0.2)
+		// failover / publicURI are never looked at by PrometheusConfig.validate (reviewed: a bad URI is a request error)
+		g.opt(&b, "  ", "failover", "["+hclStr(g.choose([]string{promURL, promURL + "/"}, []string{"::", "http://exa mple.com/%zz", "", "http://127.0.0.1:1"}))+"]", 0.25)
+		g.opt(&b, "  ", "publicURI", hclStr(g.choose([]string{"http://prom.example.com"}, []string{"::", "", "http://exa mple.com/%zz"})), 0.2)
+		g.opt(&b, "  ", "headers", pick(g.r, []string{`{ "X-Auth" = "k" }`, `{ "" = "" }`, `{ "X y" = "a\nb" }`}), 0.2)
 		b.WriteString("}\n")
 	}
 	if promURL != "" && g.r.Intn(6) == 0 {
@@ -1018,6 +1020,98 @@ func c18MatchStratum() []c18Scenario {
 	return out
 }
 
+
+// c18SettingsStratum: every option of every rule-level settings block (and of check "promql/series"), ONE option at a
+// time over its whole pool of valid / invalid / borderline values while the other options of the block keep a good
+// value (systematic, every tier), crossed with c18ExerciserRules.  Blocks that need a server run online against the
+// fake Prometheus.
+func c18SettingsStratum(promURL string) []c18Scenario {
+	q := func(xs ...string) []string {
+		out := make([]string, len(xs))
+		for i, x := range xs {
+			out[i] = hclStr(x)
+		}
+		return out
+	}
+	durs := q("5m", "1h", "5h", "30s", "1d", "1w", "2h30m", "0s", "1y", "abc", "5", "-1m", "1.5h", "", "1y1y", " 5m", "5m ", "1h 5m", "1e3s")
+	sevs := q("info", "warning", "bug", "fatal", "", "critical", "Bug", " bug")
+	keys := q(c18BlockKeys...)
+	toks := q(c18BlockTokens...)
+	vals := q(c18BlockValues...)
+	ints := []string{"0", "1", "5", "100", "-1", "9223372036854775807"}
+	bools := []string{"true", "false"}
+	type opt struct {
+		name string
+		pool []string
+		def  string // "" = the option is left out unless it is the one being varied
+	}
+	type blk struct {
+		tag    string
+		labels []string // block label pool (HCL syntax); nil = no label
+		lab    string   // default label
+		opts   []opt
+		online bool
+		top    bool // a top-level block instead of a block inside rule {}
+	}
+	blocks := []blk{
+		{tag: "annotation", labels: keys, lab: `"summary"`, opts: []opt{{"token", toks, ""}, {"value", vals, ""}, {"values", []string{`["a", "b|c", "CPU [high"]`, `[]`, `[""]`}, ""}, {"required", bools, "true"}, {"severity", sevs, ""}, {"comment", q("c", "", "{{ x"), ""}}},
+		{tag: "label", labels: keys, lab: `"team"`, opts: []opt{{"token", toks, ""}, {"value", vals, ""}, {"values", []string{`["a", "b|c", "a|b"]`, `[]`, `[""]`}, ""}, {"required", bools, "true"}, {"severity", sevs, ""}, {"comment", q("c", ""), ""}}},
+		{tag: "aggregate", labels: keys, lab: `".+"`, opts: []opt{{"keep", []string{`["job"]`, `[]`, `[""]`, `["job", "job"]`}, `["job"]`}, {"strip", []string{`["instance"]`, `[]`, `["job"]`}, ""}, {"severity", sevs, ""}, {"comment", q("c"), ""}}},
+		{tag: "reject", labels: keys, lab: `".* +.*"`, opts: []opt{{"label_keys", bools, "true"}, {"label_values", bools, "true"}, {"annotation_keys", bools, "true"}, {"annotation_values", bools, "true"}, {"severity", sevs, ""}, {"comment", q("c"), ""}}},
+		{tag: "name", labels: keys, lab: `"CPU.*"`, opts: []opt{{"severity", sevs, ""}, {"comment", q("c"), ""}}},
+		{tag: "link", labels: append(q("https?://.*", "http://(.*)", ".*"), keys...), lab: `"http://.*"`, online: true,
+			opts: []opt{{"uri", q("http://127.0.0.1:1/$1", "http://exa mple.com/%zz", "$1", "::", "", "$9", "http://127.0.0.1:1/x"), ""}, {"timeout", durs, ""}, {"headers", []string{`{ "X-Auth" = "k" }`, `{ "" = "" }`, `{}`}, ""}, {"severity", sevs, ""}, {"comment", q("c"), ""}}},
+		{tag: "for", opts: []opt{{"min", durs, `"1m"`}, {"max", durs, ""}, {"severity", sevs, ""}, {"comment", q("c"), ""}}},
+		{tag: "keep_firing_for", opts: []opt{{"min", durs, `"1m"`}, {"max", durs, ""}, {"severity", sevs, ""}, {"comment", q("c"), ""}}},
+		{tag: "report", opts: []opt{{"comment", q("rep", "", "{{ x"), `"rep"`}, {"severity", sevs, `"bug"`}}},
+		{tag: "alerts", online: true, opts: []opt{{"range", durs, `"1h"`}, {"step", durs, `"1m"`}, {"resolve", durs, `"5m"`}, {"minCount", ints, ""}, {"severity", sevs, ""}, {"comment", q("c"), ""}}},
+		{tag: "cost", online: true, opts: []opt{{"maxSeries", ints, ""}, {"maxTotalSamples", ints, ""}, {"maxPeakSamples", ints, ""}, {"maxEvaluationDuration", durs, ""}, {"severity", sevs, ""}, {"comment", q("c"), ""}}},
+		{tag: "range_query", online: true, opts: []opt{{"max", durs, `"1d"`}, {"severity", sevs, ""}, {"comment", q("c"), ""}}},
+		{tag: `check "promql/series"`, top: true, online: true, opts: []opt{{"lookbackRange", durs, ""}, {"lookbackStep", durs, ""}, {"fallbackTimeout", durs, ""},
+			{"ignoreMetrics", []string{`[".*_errors"]`, `["("]`, `[""]`, `["\\Qx"]`}, ""}, {"ignoreLabelsValue", []string{`{ "foo" = ["job"] }`, `{ "foo{" = ["job"] }`, `{ "" = [] }`}, ""},
+			{"ignoreMatchingElsewhere", []string{`["foo"]`, `["{job=\"x\"}"]`, `["foo{"]`, `["{}"]`, `["sum(foo)"]`, `[""]`}, ""}}},
+	}
+	var out []c18Scenario
+	emit := func(b blk, label string, varied string, val string) {
+		var body strings.Builder
+		for _, o := range b.opts {
+			v := o.def
+			if o.name == varied {
+				v = val
+			}
+			if v != "" || o.name == varied {
+				fmt.Fprintf(&body, "    %s = %s\n", o.name, v)
+			}
+		}
+		head := b.tag
+		if label != "" {
+			head += " " + label
+		}
+		var cfg string
+		if b.top {
+			cfg = fmt.Sprintf("%s {\n%s}\n", head, body.String())
+		} else {
+			cfg = fmt.Sprintf("rule {\n  %s {\n%s  }\n}\n", head, body.String())
+		}
+		if b.online {
+			cfg = fmt.Sprintf("prometheus \"prom\" {\n  uri = %q\n}\n", promURL) + cfg
+		}
+		tag := strings.Fields(b.tag)[0] + ":" + varied
+		out = append(out, c18Scenario{ID: fmt.Sprintf("set-%d-%s", len(out), tag), Config: cfg, Rules: c18ExerciserRules, Online: b.online, Tags: []string{"settings-stratum", tag}})
+	}
+	for _, b := range blocks {
+		for _, l := range b.labels {
+			emit(b, l, "<label>", "")
+		}
+		for _, o := range b.opts {
+			for _, v := range o.pool {
+				emit(b, b.lab, o.name, v)
+			}
+		}
+	}
+	return out
+}
+
 type c18Known struct {
 	id    string
 	match func(sc c18Scenario, stderr string) bool
@@ -1052,6 +1146,11 @@ func c18Configs(r *rand.Rand, rep *runReport, cwd string, n int) {
 		rep.hist("cfg:stratum=" + sc.Tags[1])
 	}
 	scens = append(scens, ms...)
+	ss := c18SettingsStratum(srv.URL)
+	for _, sc := range ss {
+		rep.hist("cfg:stratum=" + sc.Tags[1])
+	}
+	scens = append(scens, ss...)
 	fs := c18FlagStratum(basicRules)
 	for _, sc := range fs {
 		rep.hist("cfg:stratum=flag:" + sc.Tags[1])
